@@ -380,3 +380,21 @@ def check_option_setters(facts, rep, crate, rid, fields, adt="penguin_mux::confi
         else:
             rep.bad(rid, key, "%s (%s)" % (loc_str(found[0].loc), found[0].path),
                     "the builder method `%s` does not store its argument into Options.%s: the configured value is silently ignored and the default stays in effect" % (found[0].name, f))
+
+
+def import_outbound_queue_rule(facts, rep, tier, cfg, rid):
+    """S1 as a precondition of every property whose frames travel through the outbound queue: whatever is taken off the queue is handed to
+    the WebSocket sink (no message is dropped, deduplicated or held back by the send loop), by the two draining loops only."""
+    import rules_c02
+    sub = type(rep)(rep.prop, rep.tier, rep.config)
+    rules_c02.check_r2_outbound(facts, sub, facts.crate("penguin_mux"))
+    k = 0
+    for i in sub.instances:
+        if i["rule"] == "C02.R2":
+            k += 1
+            rep.ok(rid, "C02.R2/" + i["key"], i["where"], i["detail"], nontrivial=False)
+    for v in sub.violations:
+        if v["rule"] == "C02.R2":
+            k += 1
+            rep.bad(rid, v["key"], v["where"], v["msg"])
+    rep.floor(rid, "outbound-queue obligations (S1)", k, 2)
